@@ -866,3 +866,54 @@ Proof.
       cbn [option_map]. rewrite drop_all_self; [reflexivity | auto]. }
     unfold cup in Hcup. rewrite Ec' in Hcup. cbn [option_map] in Hcup. congruence.
 Qed.
+
+(* ------------------------------------------------------------------ *)
+(* The revocation is EFFECTIVE (b21f80e): [remove] deletes every
+   occurrence, so after unpresent / shutup / unop the permission is not in
+   the list, whatever the list was (duplicates included) *)
+
+Lemma mem_remove_same : forall v l, mem v (remove v l) = false.
+Proof.
+  intros v l. induction l as [|w l IH]; cbn [remove]; [reflexivity|].
+  destruct (String.eqb v w) eqn:E; [exact IH|].
+  unfold mem in *. cbn [existsb]. rewrite E, IH. reflexivity.
+Qed.
+
+Lemma mem_remove_other : forall v u l, mem v l = false -> mem v (remove u l) = false.
+Proof.
+  intros v u l. induction l as [|w l IH]; cbn [remove]; intro H; [reflexivity|].
+  unfold mem in H. cbn [existsb] in H. apply orb_false_iff in H. destruct H as [H1 H2].
+  destruct (String.eqb u w); [apply IH; exact H2|].
+  unfold mem in *. cbn [existsb]. rewrite H1. cbn [orb]. apply IH. exact H2.
+Qed.
+
+Lemma change_perms_revokes : forall allowrec p p',
+  (change_perms allowrec "unpresent" p = Some p' -> mem "present" p' = false) /\
+  (change_perms allowrec "shutup" p = Some p' -> mem "message" p' = false) /\
+  (change_perms allowrec "unop" p = Some p' -> mem "op" p' = false /\ mem "record" p' = false).
+Proof.
+  intros allowrec p p'.
+  split; [|split]; intro H; vm_compute in H; inversion H; subst; clear H.
+  - apply mem_remove_same.
+  - apply mem_remove_same.
+  - split; [apply mem_remove_other|]; apply mem_remove_same.
+Qed.
+
+(* once the target's loop has served the queued revocation in the group in
+   which it was issued, the revoked permission is not held *)
+Theorem revocation_effective : forall w h c g kind r,
+  get_client w h = Some c -> c_group c = Some g ->
+  handle_action w h c (AChangePerms g kind) = Ok r -> r_err r = ENone ->
+  exists c', get_client (r_world r) h = Some c' /\
+    (kind = "unpresent" -> mem "present" (c_perms c') = false) /\
+    (kind = "shutup" -> mem "message" (c_perms c') = false) /\
+    (kind = "unop" -> mem "op" (c_perms c') = false /\ mem "record" (c_perms c') = false).
+Proof.
+  intros w h c g kind r Hc Hg H He.
+  destruct (change_applied _ _ _ _ _ _ Hc Hg H He) as (p' & c' & Hcp & Hc' & Hp & _).
+  exists c'. split; [exact Hc'|]. rewrite Hp.
+  destruct (change_perms_revokes
+              (match find_group w g with Some gr => d_allowrec (g_desc gr) | None => false end)
+              (c_perms c) p') as (H1 & H2 & H3).
+  split; [|split]; intro Hk; subst kind; auto.
+Qed.
